@@ -249,42 +249,63 @@ Section NoTies.
     end.
 End NoTies.
 
-(* executable instances: labels by iterated minimum propagation over the 8-neighbourhood
-   followed by renumbering in raster order; the position of the first maximum in raster order *)
+(* executable instances of the library calls, proved correct in Proofs/LocalMaxFlood.v:
+   labels by flooding minimum pixel numbers over the 8-neighbourhood until nothing changes
+   (fuel = the sum of all numbers + 1, which always suffices), then renumbering the
+   representatives 1..count; maximum_position = the first maximum of each label in raster order *)
 Definition nb8 : list (Z * Z) := [(-1,-1); (-1,0); (-1,1); (0,-1); (0,1); (1,-1); (1,0); (1,1)].
 
-Definition prop_step (h w : nat) (s : list (list bool)) (l : list (list Z)) : list (list Z) :=
-  tab h w (fun y x => if get2 false s y x
-     then fold_left (fun m d => let v := get2 0 l (y + fst d) (x + snd d) in
-                                if (0 <? v) && (v <? m) then v else m) nb8 (get2 0 l y x)
-     else 0).
+Definition cells (h w : nat) : list (Z * Z) := flat_map (fun y => map (fun x => (y, x)) (zrange w)) (zrange h).
+
+(* 1 + raster index *)
+Definition pidx (w : nat) (p : Z * Z) : Z := Z.of_nat w * fst p + snd p + 1.
+
+(* min of a pixel's number and the numbers of its neighbours inside the set *)
+Definition nb_min (u : Z -> Z -> bool) (l : Z -> Z -> Z) (y x : Z) : Z :=
+  fold_left (fun m d => if u (y + fst d) (x + snd d) && (l (y + fst d) (x + snd d) <? m)
+                        then l (y + fst d) (x + snd d) else m) nb8 (l y x).
+
+Definition flood_step (h w : nat) (s : list (list bool)) (g : list (list Z)) : list (list Z) :=
+  tab h w (fun y x => if get2 false s y x then nb_min (get2 false s) (get2 0 g) y x else 0).
+
+Fixpoint flood_iter (fuel : nat) (h w : nat) (s : list (list bool)) (g : list (list Z)) : list (list Z) :=
+  match fuel with
+  | O => g
+  | S f => let g' := flood_step h w s g in
+           if list_eq_dec (list_eq_dec Z.eq_dec) g' g then g else flood_iter f h w s g'
+  end.
+
+Definition gsum (h w : nat) (g : list (list Z)) : Z :=
+  fold_right (fun p acc => get2 0 g (fst p) (snd p) + acc) 0 (cells h w).
+
+Fixpoint index_of (v : Z) (l : list Z) : nat :=
+  match l with [] => O | a :: r => if a =? v then O else S (index_of v r) end.
 
 Definition label_inst (s : list (list bool)) : list (list Z) * Z :=
   let '(h, w) := shape2 s in
-  let W := Z.of_nat w in
-  let l0 := tab h w (fun y x => if get2 false s y x then W * y + x + 1 else 0) in
-  let l := fold_left (fun l _ => prop_step h w s l) (seq 0 (h * w)) l0 in
-  (* representatives = cells that kept their own initial number, in raster order *)
-  let reps := filter (fun v => 0 <? v)
-                (concat (tab h w (fun y x => if get2 0 l y x =? W * y + x + 1 then W * y + x + 1 else 0))) in
-  let number v := fold_left (fun acc rk => if fst rk =? v then snd rk else acc)
-                            (combine reps (map (fun k => k + 1) (zrange (length reps)))) 0 in
-  (tab h w (fun y x => let v := get2 0 l y x in if 0 <? v then number v else 0), zlen reps).
+  let u := get2 false s in
+  let g0 := tab h w (fun y x => if u y x then pidx w (y, x) else 0) in
+  let f := flood_iter (S (Z.to_nat (gsum h w g0))) h w s g0 in
+  (* representatives = pixels that kept their own number *)
+  let vals := nodup Z.eq_dec
+                (map (pidx w) (filter (fun p => u (fst p) (snd p) && (get2 0 f (fst p) (snd p) =? pidx w p))
+                                      (cells h w))) in
+  (tab h w (fun y x => if u y x then Z.of_nat (index_of (get2 0 f y x) vals) + 1 else 0), zlen vals).
 
 Definition ro_distance_inst (s : list (list bool)) : list (list Z) :=
   tab (fst (shape2 s)) (snd (shape2 s)) (fun _ _ => 0).
 
+Definition best_step (values labels : list (list Z)) (k : Z) (best : option (Z * Z)) (p : Z * Z) : option (Z * Z) :=
+  if get2 0 labels (fst p) (snd p) =? k then
+    match best with
+    | None => Some p
+    | Some q => if get2 0 values (fst q) (snd q) <? get2 0 values (fst p) (snd p) then Some p else best
+    end
+  else best.
+
 Definition maximum_position_inst (values labels : list (list Z)) (index : list Z) : list (Z * Z) :=
   let '(h, w) := shape2 labels in
-  let cells := flat_map (fun y => map (fun x => (y, x)) (zrange w)) (zrange h) in
-  map (fun k =>
-    match fold_left (fun best p =>
-        if get2 0 labels (fst p) (snd p) =? k then
-          match best with
-          | None => Some p
-          | Some q => if get2 0 values (fst q) (snd q) <? get2 0 values (fst p) (snd p) then Some p else best
-          end
-        else best) cells None with
-    | Some p => p
-    | None => (0, 0)
-    end) index.
+  map (fun k => match fold_left (best_step values labels k) (cells h w) None with
+                | Some p => p
+                | None => (0, 0)
+                end) index.
